@@ -11,7 +11,7 @@
 (* Unlock is a separate step only where it reads shared state (the          *)
 (* unlocked look at the write queue in ResetPollerEvent).                   *)
 (*                                                                         *)
-(* Threads:  writers W (Conn.Write from application goroutines),            *)
+(* Threads:  writers W (Conn.Write / Writev / Sendfile from goroutines),     *)
 (*           "o" the goroutine that adds the connection (OnOpen callback,   *)
 (*               optionally writing inside it, then EPOLL_CTL_ADD),         *)
 (*           "p" the poller (epoll_wait; flush; read loop; one-shot re-arm).*)
@@ -107,17 +107,25 @@ ModEffect(wantOut) ==
 ModIsSyscall == Mode # "ET"
 
 (* ------------------------------ queueing ------------------------------ *)
-\* newToWriteBuf(b) with len(b) = n
+\* newToWriteBuf(b) with len(b) = n  (a buffer is never appended to a file entry)
+Buf(n)  == [len |-> n, off |-> 0, file |-> FALSE]
+File(n) == [len |-> n, off |-> 0, file |-> TRUE]
 Enqueue(q, n) ==
-    IF q = <<>> THEN <<[len |-> n, off |-> 0]>>
+    IF q = <<>> THEN <<Buf(n)>>
     ELSE LET t == q[Len(q)] IN
-         IF t.len + n > Coalesce THEN Append(q, [len |-> n, off |-> 0])
-         ELSE [q EXCEPT ![Len(q)] = [len |-> t.len + n, off |-> t.off]]
+         IF t.file \/ t.len + n > Coalesce THEN Append(q, Buf(n))
+         ELSE [q EXCEPT ![Len(q)] = [len |-> t.len + n, off |-> t.off, file |-> FALSE]]
+\* newToWriteFile: the (dup'ed) descriptor with n bytes left to send; not counted in `left`
+EnqueueFile(q, n) == Append(q, File(n))
+SumBuf(s) == SumQ(SelectSeq(s, LAMBDA e : ~e.file))
 
 (* ------------------------- Conn.Write by thread t ------------------------- *)
 \* the thread has a call to make
+\* a negative entry -n of Prog is a Sendfile of n bytes, a positive one a Write (or Writev: the same at this grain)
 HasCall(t) == done[t] < Len(Prog[t])
-Size(t) == Prog[t][done[t] + 1]
+Raw(t) == Prog[t][done[t] + 1]
+IsFile(t) == Raw(t) < 0
+Size(t) == IF Raw(t) < 0 THEN 0 - Raw(t) ELSE Raw(t)
 
 \* where a thread goes when a call has completed (d = number of calls completed then)
 CallDonePc(t, d) == IF t = "o" THEN (IF d < Len(Prog["o"]) THEN "idle" ELSE "oadd") ELSE "idle"
@@ -141,7 +149,7 @@ WBegin(t) ==
             /\ done' = [done EXCEPT ![t] = @ + 1]
             /\ pc' = [pc EXCEPT ![t] = CallDonePc(t, done[t] + 1)]
             /\ UNCHANGED <<wl, left, wadded, closed, mux, cur, acc, ovf>>
-       ELSE IF MaxWB > 0 /\ left + n > MaxWB THEN      \* errOverflow: closed := TRUE; Unlock; tear down
+       ELSE IF ~IsFile(t) /\ MaxWB > 0 /\ left + n > MaxWB THEN      \* errOverflow: closed := TRUE; Unlock; tear down
             \* (the replay driver always continues eagerly after a closing step, so the release of
             \* the queue and the removal from the table belong to this step)
             /\ closed' = TRUE /\ ovf' = TRUE /\ wl' = <<>>
@@ -150,20 +158,44 @@ WBegin(t) ==
        ELSE IF wl = <<>> THEN    \* direct write: parked at the write syscall, lock held
             /\ mux' = t /\ pc' = [pc EXCEPT ![t] = "wsys"] /\ cur' = [cur EXCEPT ![t] = n]
             /\ UNCHANGED <<wl, left, wadded, closed, done, acc, ovf>>
+       ELSE IF IsFile(t) THEN    \* Sendfile behind the backlog: dup, newToWriteFile, return (no modWrite)
+            /\ wl' = EnqueueFile(wl, n) /\ acc' = acc + n
+            /\ cur' = [cur EXCEPT ![t] = n]
+            /\ done' = [done EXCEPT ![t] = @ + 1]
+            /\ pc' = [pc EXCEPT ![t] = CallDonePc(t, done[t] + 1)]
+            /\ UNCHANGED <<left, wadded, closed, mux, ovf>>
        ELSE                      \* queue behind the backlog
             /\ wl' = Enqueue(wl, n) /\ left' = left + n /\ acc' = acc + n
             /\ cur' = [cur EXCEPT ![t] = n]
             /\ AfterWrite(t, Enqueue(wl, n), wadded)
             /\ UNCHANGED <<closed, ovf>>
-    /\ intable' = IF ~closed /\ Size(t) > 0 /\ MaxWB > 0 /\ left + Size(t) > MaxWB THEN FALSE ELSE intable
+    /\ intable' = IF ~closed /\ ~IsFile(t) /\ Size(t) > 0 /\ MaxWB > 0 /\ left + Size(t) > MaxWB THEN FALSE ELSE intable
     /\ UNCHANGED <<lost, reg, dis, rdy, nospace, kfill, inq, fdclosed, pev, rdcnt, peek, sent, handed>>
 
 \* the direct write syscall and everything up to the next syscall
+WSysFile(t) ==          \* Sendfile: the loop of sendfile syscalls goes on until everything is sent or EAGAIN
+    /\ pc[t] = "wsys" /\ IsFile(t)
+    /\ LET n == cur[t]  k == Min(n, room) IN
+       IF k = n THEN          \* everything handed over: return total
+            /\ kfill' = kfill + k /\ handed' = handed + k /\ acc' = acc + k
+            /\ mux' = "none" /\ done' = [done EXCEPT ![t] = @ + 1]
+            /\ pc' = [pc EXCEPT ![t] = CallDonePc(t, done[t] + 1)]
+            /\ UNCHANGED <<wl, wadded, nospace, cur>>
+       ELSE IF k > 0 THEN     \* short: the next sendfile syscall follows
+            /\ kfill' = kfill + k /\ handed' = handed + k /\ nospace' = TRUE
+            /\ cur' = [cur EXCEPT ![t] = n - k] /\ acc' = acc + k      \* (ghost: counted as accepted when handed over)
+            /\ UNCHANGED <<wl, wadded, mux, done, pc>>
+       ELSE                   \* EAGAIN: dup, newToWriteFile(rest), modWrite
+            /\ nospace' = TRUE /\ wl' = <<File(n)>> /\ acc' = acc + n
+            /\ AfterWrite(t, <<File(n)>>, wadded)
+            /\ UNCHANGED <<kfill, handed, cur>>
+    /\ UNCHANGED <<left, lost, closed, intable, reg, dis, rdy, inq, fdclosed, pev, rdcnt, peek, sent, ovf>>
+
 WSys(t) ==
-    /\ pc[t] = "wsys"
+    /\ pc[t] = "wsys" /\ ~IsFile(t)
     /\ LET n == cur[t]  k == Min(n, room)  rest == n - k
            q == rest > 0 /\ (Transport = "tcp" \/ "unix_tail" \in Fix)
-           nq == IF q THEN <<[len |-> rest, off |-> 0]>> ELSE <<>> IN
+           nq == IF q THEN <<Buf(rest)>> ELSE <<>> IN
        /\ kfill' = kfill + k /\ handed' = handed + k /\ acc' = acc + n
        /\ nospace' = (nospace \/ k < n)
        /\ wl' = nq /\ left' = IF q THEN left + rest ELSE left
@@ -257,7 +289,7 @@ PFSys ==
             /\ nospace' = TRUE
             /\ pc' = [pc EXCEPT !["p"] = AfterFlushPc] /\ mux' = "none"
             /\ UNCHANGED <<wl, left, wadded, kfill, handed>>
-       ELSE /\ kfill' = kfill + k /\ handed' = handed + k /\ left' = left - k
+       ELSE /\ kfill' = kfill + k /\ handed' = handed + k /\ left' = IF h.file THEN left ELSE left - k
             /\ nospace' = (nospace \/ k < r)
             /\ LET nq == IF k = r THEN Tail(wl) ELSE <<[h EXCEPT !.off = @ + k]>> \o Tail(wl) IN
                /\ wl' = nq
@@ -342,13 +374,13 @@ PeerSend ==
     /\ UNCHANGED <<wl, left, wadded, closed, intable, mux, reg, dis, nospace, kfill, fdclosed, pc, cur, done, pev, rdcnt,
                    peek, acc, handed, lost, ovf>>
 
-Step(t) == \/ (t \in Writers \cup {"o"} /\ (WBegin(t) \/ WSys(t) \/ WCtl(t) \/ WClose(t)))
+Step(t) == \/ (t \in Writers \cup {"o"} /\ (WBegin(t) \/ WSys(t) \/ WSysFile(t) \/ WCtl(t) \/ WClose(t)))
            \/ (t = "o" /\ (OpenAddLock \/ OpenAdd))
            \/ (t = "p" /\ (PWait \/ PFLock \/ PFSys \/ PFCtl \/ PRLock \/ PRSys \/ PRPost \/ PRearmLock \/ PRearm))
 Sys  == \E t \in Threads : Step(t)
 Env  == (\E m \in 1..SndCap : PeerRead(m)) \/ PeerSend
 \* flat disjunction so that TLC labels every transition with the sub-action that produced it
-Next == \/ \E t \in Writers \cup {"o"} : WBegin(t) \/ WSys(t) \/ WCtl(t) \/ WClose(t)
+Next == \/ \E t \in Writers \cup {"o"} : WBegin(t) \/ WSys(t) \/ WSysFile(t) \/ WCtl(t) \/ WClose(t)
         \/ OpenAddLock \/ OpenAdd
         \/ PWait \/ PFLock \/ PFSys \/ PFCtl \/ PRLock \/ PRSys \/ PRPost \/ PRearmLock \/ PRearm
         \/ (\E m \in 1..SndCap : PeerRead(m)) \/ PeerSend
@@ -358,8 +390,8 @@ Spec == Init /\ [][Next]_vars /\ (\A t \in Threads : WF_vars(Step(t))) /\ WF_var
 (* -------------------------------- properties -------------------------------- *)
 TypeOK == /\ left >= 0 /\ kfill \in 0..SndCap /\ mux \in Threads \cup {"none"}
 Integrity  == lost = 0 /\ (~closed => acc = handed + SumQ(wl))           \* C01 (count form)
-LeftExact  == ~closed => left = SumQ(wl)                                 \* C17
-Bounded    == MaxWB > 0 => SumQ(wl) <= MaxWB                             \* C17
+LeftExact  == ~closed => left = SumBuf(wl)                               \* C17 (file entries are not counted)
+Bounded    == MaxWB > 0 => SumBuf(wl) <= MaxWB                           \* C17
 Quiescent  == ~ENABLED Sys /\ kfill = 0
 NoStall    == (Quiescent /\ ~closed) => wl = <<>>                        \* C04, safety form
 Drains     == (wl # <<>>) ~> (wl = <<>> \/ closed)                       \* C04, liveness form
